@@ -93,7 +93,7 @@ def _identity_fwd(parent, child, budget):
 
 
 def _record_edge(parent, child, mod_config):
-    from .edges import build_edge_unit, canon_proc_hash
+    from .edges import build_edge_unit, canon_proc_hash, top_proc_hash
     from .export import ExportError
     cap = int(os.environ.get("TESTREC_CAP", "6"))
     op = _opname()
@@ -115,7 +115,7 @@ def _record_edge(parent, child, mod_config):
         unit = build_edge_unit(f"{_STATE['test']}|{op}#{rec['n']}", parent, child, "F", rng, cap,
                                max_cells=int(os.environ.get("TESTREC_MAX_CELLS", "600")))
         ha, hb = canon_proc_hash(unit, "A"), canon_proc_hash(unit, "B")
-        if ha == hb:
+        if top_proc_hash(unit, "A") == top_proc_hash(unit, "B"):
             rec["status"] = "noop"
         else:
             rec["status"] = "accepted"
